@@ -32,6 +32,10 @@ CASES = {
     "poly2angles   ": [(None, {"--poly": [-1.0, 0.0, 2.0]}), (None, {"--poly": [1.0, 0.0, -2.0]}), (None, {"--poly": [0.0, -1.0]}), (None, {"--poly": [0.0, 3.0, 0.0, -4.0]}),
                        (None, {"--poly": [0.0, -3.0, 0.0, 4.0]}), (None, {"--poly": [-1.0, 0.0, 8.0, 0.0, -8.0]}), (None, {"--poly": [0.0, 0.0, -0.9]}), (None, {"--poly": [0.0, -0.5]})],
     "hamsim": [([3.0, 0.1], {}), ([5.5, 0.05], {})],
+    # one-entry argument lists: the remaining shape parameters are the GENERATOR's defaults (README: `--seqargs 3 invert`)
+    "invert   ": [([3.0], {}), ([2.0], {})],
+    "hamsim   ": [([5.0], {}), ([2.0], {})],
+    "fpsearch ": [([6], {})],
     "fpsearch": [([4, 0.5], {}), ([7, 0.1], {})],
     "invert": [([3, 0.3], {}), ([2.5, 0.2], {})],
     "gibbs": [([6, 2.0], {}), ([8, 1.5], {})],
